@@ -403,7 +403,7 @@ func (p *Parser) parseStmt(allowDeclaration bool) (stmt IStmt) {
 		}
 		p.in = true
 
-		isLHSExpr := isLHSExpr(init)
+		isLHSExpr := isLHSExpr(init) && !isOptChain(init) // an optional chain is not an assignment target
 		if isLHSExpr && p.tt == InToken {
 			if await {
 				p.fail("for statement", OfToken)
@@ -1786,6 +1786,10 @@ func (p *Parser) parseExpression(prec OpPrec) IExpr {
 		}
 		p.next()
 		left = &UnaryExpr{PreIncrToken, p.parseExpression(OpUnary)}
+		if isOptChain(left.(*UnaryExpr).X) {
+			p.failMessage("invalid optional chain as operand of %s", tt)
+			return nil
+		}
 		precLeft = OpUpdate
 	case DecrToken:
 		if OpUpdate < prec {
@@ -1794,6 +1798,10 @@ func (p *Parser) parseExpression(prec OpPrec) IExpr {
 		}
 		p.next()
 		left = &UnaryExpr{PreDecrToken, p.parseExpression(OpUnary)}
+		if isOptChain(left.(*UnaryExpr).X) {
+			p.failMessage("invalid optional chain as operand of %s", tt)
+			return nil
+		}
 		precLeft = OpUpdate
 	case AwaitToken:
 		// either accepted as IdentifierReference or as AwaitExpression
@@ -1950,7 +1958,8 @@ func (p *Parser) parseExpressionSuffix(left IExpr, prec, precLeft OpPrec) IExpr 
 		case EqToken, MulEqToken, DivEqToken, ModEqToken, ExpEqToken, AddEqToken, SubEqToken, LtLtEqToken, GtGtEqToken, GtGtGtEqToken, BitAndEqToken, BitXorEqToken, BitOrEqToken, AndEqToken, OrEqToken, NullishEqToken:
 			if OpAssign < prec {
 				return left
-			} else if precLeft < OpLHS {
+			} else if precLeft < OpLHS || precLeft == OpOpt {
+				// an optional chain is not an assignment target
 				p.fail("expression")
 				return nil
 			}
@@ -2116,7 +2125,7 @@ func (p *Parser) parseExpressionSuffix(left IExpr, prec, precLeft OpPrec) IExpr 
 		case IncrToken:
 			if p.prevLT || OpUpdate < prec {
 				return left
-			} else if precLeft < OpLHS {
+			} else if precLeft < OpLHS || precLeft == OpOpt {
 				p.fail("expression")
 				return nil
 			}
@@ -2126,7 +2135,7 @@ func (p *Parser) parseExpressionSuffix(left IExpr, prec, precLeft OpPrec) IExpr 
 		case DecrToken:
 			if p.prevLT || OpUpdate < prec {
 				return left
-			} else if precLeft < OpLHS {
+			} else if precLeft < OpLHS || precLeft == OpOpt {
 				p.fail("expression")
 				return nil
 			}
